@@ -121,6 +121,15 @@ void gen_world(Rng& r, Plan& p, GenOpts const& o)
     if (p.acc) gen_dists(r, p, static_cast<int>(r.below(4)), false);
     else p.dists.clear();
 
+    if (high && (p.nt == NT_F || p.dims > 24))
+    {
+        // the product of many bin width factors leaves the exponent range once the grid has adapted
+        // (the square of a finite f * w overflows, which no property covers): one iteration on the
+        // uniform grid, where every weight is exactly one
+        p.calls.resize(1);
+        p.grid = 0;
+    }
+
     static int const fk_pick[] = {F_POLY, F_POLY, F_PEAK, F_PEAK, F_SIGN, F_SPARSE, F_SPARSE, F_SELECT, F_LADDER};
     p.fk = r.pick(fk_pick);
     if (o.allow_degenerate && r.chance(0.08)) p.fk = r.chance(0.5) ? F_ZERO : F_CONST;
